@@ -151,3 +151,10 @@ Theorem C14_equal_vectors_are_not_less : forall L, wf_plist L = true -> L <> [] 
   vec_equal L v1 v2 = true -> vec_less L v1 v2 = false /\ vec_less L v2 v1 = false.
 Proof. exact vec_equal_not_less. Qed.
 Print Assumptions C14_equal_vectors_are_not_less.
+
+(* ... hence a < b implies a != b (!= is the negation of ==: C13_not_equal_is_negation) *)
+Theorem C14_less_vectors_are_not_equal : forall L, wf_plist L = true -> L <> [] ->
+  forall v1 l1 v2 l2, Rep L v1 l1 -> Rep L v2 l2 ->
+  vec_less L v1 v2 = true -> vec_equal L v1 v2 = false /\ vec_equal L v2 v1 = false.
+Proof. exact vec_less_not_equal. Qed.
+Print Assumptions C14_less_vectors_are_not_equal.
